@@ -68,10 +68,19 @@ def ordered(order, groups):
     return [x for g in order for x in groups[g]]
 
 
-def script_in(s, p, i, others, mode, has_loop, order):
+def rotl(xs, r):
+    r %= len(xs)
+    return xs[r:] + xs[:r]
+
+
+def script_in(s, p, i, others, mode, has_loop, order, rot=0):
     """A script INSIDE the quantifier: LCDs before the main loop; servos before it (mode 'pre'),
-    at the top of its body ('top'), or the first before and the rest at the top ('split')."""
+    at the top of its body ('top'), or the first before and the rest at the top ('split').
+    rot rotates which constructor spellings (positional / keyword / optional pins such as rw=) are used first,
+    so that every spelling also occurs as the ONLY device of its kind."""
     pre_s = {"pre": s, "top": 0, "split": min(1, s)}[mode]
+    SERVO_DECL, PAR_DECL, I2C_DECL = rotl(DECLS["S"], rot), rotl(DECLS["P"], rot), rotl(DECLS["I"], rot)
+    SERVO_USE, PAR_USE, I2C_USE = rotl(USES["S"], rot), rotl(USES["P"], rot), rotl(USES["I"], rot)
     lines = [IMPORTS.rstrip("\n")]
     if others:
         lines += OTHER_DECL
@@ -190,10 +199,12 @@ def gen_cases(tier, rng):
                         modes.append(("split", True))
                     for mode, has_loop in modes:
                         order = ORDERS[n % len(ORDERS)]
+                        single = (s + p + i == 1)
+                        for rot in ((0, 1, 2) if single else ((n // len(ORDERS)) % 3,)):
+                            declared = {KIND_LIB[g] for g, k in (("S", s), ("P", p), ("I", i)) if k}
+                            cases.append({"src": script_in(s, p, i, others, mode, has_loop, order, rot), "cat": "in", "kind": "in:" + mode + (":loop" if has_loop else ":noloop"),
+                                          "declared": declared, "meta": {"s": s, "p": p, "i": i, "others": others, "mode": mode, "loop": has_loop, "order": order, "rot": rot}})
                         n += 1
-                        declared = {KIND_LIB[g] for g, k in (("S", s), ("P", p), ("I", i)) if k}
-                        cases.append({"src": script_in(s, p, i, others, mode, has_loop, order), "cat": "in", "kind": "in:" + mode + (":loop" if has_loop else ":noloop"),
-                                      "declared": declared, "meta": {"s": s, "p": p, "i": i, "others": others, "mode": mode, "loop": has_loop, "order": order}})
     # same-name re-declarations with one interface / one class: inside the quantifier
     for first in "PI":
         for extra in ("", "P", "I", "PI"):
@@ -237,7 +248,8 @@ def gen_cases(tier, rng):
         keep, seen = [], set()
         rng.shuffle(ins)
         for c in ins:
-            k = (c["meta"]["s"], c["meta"]["p"], c["meta"]["i"])
+            m = c["meta"]
+            k = (m["s"], m["p"], m["i"], m["rot"] if m["s"] + m["p"] + m["i"] == 1 else -1)
             if k not in seen:
                 seen.add(k)
                 keep.append(c)
